@@ -139,13 +139,13 @@ type fop struct {
 }
 
 func (o fop) String() string {
-	if o.Kind == "append" || o.Kind == "prepend" || o.Kind == "create-list" {
+	if o.Kind == "append" || o.Kind == "prepend" || o.Kind == "create-list" || o.Kind == "create-list-nil" {
 		return fmt.Sprintf("%s(%d)", o.Kind, o.K)
 	}
 	return o.Kind
 }
 
-var feedInits = []fop{{"create", 0}, {"create-list", 0}, {"create-list", 1}, {"create-list", 2}, {"create-list", 3}}
+var feedInits = []fop{{"create", 0}, {"create-list", 0}, {"create-list", 1}, {"create-list", 2}, {"create-list", 3}, {"create-list-nil", 0}}
 var feedOps = []fop{{"append", 0}, {"append", 1}, {"append", 2}, {"prepend", 0}, {"prepend", 1}, {"prepend", 2}, {"up", 0}, {"down", 0}, {"center", 0}}
 
 type feedRun struct {
@@ -177,6 +177,10 @@ func (r *feedRun) apply(o fop) {
 		ts, ids := r.fresh(o.K)
 		r.real = feed.CreateAndAppend(ts)
 		r.model = feedModel{lo: 0, hi: 1 + o.K, seq: ids, cur: 1}
+	case "create-list-nil":
+		// an empty list given as a nil slice is an empty list
+		r.real = feed.CreateAndAppend(nil)
+		r.model = feedModel{lo: 0, hi: 1, seq: nil, cur: 1}
 	case "append":
 		ts, ids := r.fresh(o.K)
 		r.real.Append(ts)
